@@ -38,7 +38,7 @@ fn set_sq(board: &mut BoardState, pos: &mut Pos, sq: u8, p: u8) {
 
 /// All placements with exactly one king per side and 0..=extra further pieces, unfiltered; both colours asked.
 pub fn run_c06(rep: &Report) -> i32 {
-    let extra = if rep.quick() { 1 } else { 2 };
+    let extra = 2; // both tiers: two further pieces (every attacker x blocker geometry), 7.6e8 placements in seconds
     let h = ZobristHasher::create_zobrist_hasher();
     let pieces: Vec<u8> = {
         let mut v = Vec::new();
@@ -181,7 +181,7 @@ const ALL12: [u8; 12] = [1, 2, 3, 4, 5, 6, 9, 10, 11, 12, 13, 14];
 
 pub fn run_c14(rep: &Report) -> i32 {
     let h = ZobristHasher::create_zobrist_hasher();
-    let n_pieces = if rep.quick() { 2 } else { 3 };
+    let n_pieces = 3; // both tiers
     let evals = AtomicU64::new(0);
     let placements = AtomicU64::new(0);
     let nonzero = AtomicU64::new(0);
@@ -333,6 +333,8 @@ pub fn run_c14(rep: &Report) -> i32 {
                                                 if let Some(ks) = kord.iter().rev().map(|&s| rules::sq_at(rules::file_of(s), 7 - rules::rank_of(s)).unwrap()).find(|&s| !used[s as usize]) {
                                                     pos.b[ks as usize] = rules::pc(rules::BLACK, rules::K);
                                                 }
+                                                // the identities must hold at the extremes too (a clamp or saturation would break them there)
+                                                check_placement(&pos);
                                                 for variant in 0..2 {
                                                     let p = if variant == 0 { pos } else { pos.mirror() };
                                                     for stm in [rules::WHITE, rules::BLACK] {
@@ -651,7 +653,8 @@ fn permutations(v: &mut Vec<usize>, k: usize, out: &mut Vec<Vec<usize>>) {
 
 /// one representative per character class the parser distinguishes
 const ALPHABET: [&str; 20] = ["0", "1", "8", "9", "K", "k", "P", "p", "x", "a", "e", "h", "i", "/", " ", "-", "w", "b", "\r", "é"];
-const ALPHABET_EXTRA: [&str; 5] = ["\n", "\0", "–", "𝄞", "3"];
+// further classes that `char` predicates (is_numeric, is_alphabetic, is_whitespace, to_digit) tell apart
+const ALPHABET_EXTRA: [&str; 11] = ["\n", "\0", "–", "𝄞", "3", "٨", "²", "８", "Ä", "\u{a0}", "\u{2003}"];
 
 fn strings_up_to(alphabet: &[&str], max_len: usize) -> Vec<String> {
     let mut out = vec![String::new()];
